@@ -13,6 +13,7 @@ class FakeSock(object):
     self.accepted = bytearray()
     self.script = []
     self.dead = False
+    self.shutwr = 0
 
   def fileno(self):
     return 77
@@ -34,7 +35,9 @@ class FakeSock(object):
     raise socket.error(errno.ECONNRESET, "Connection reset by peer")
 
   def shutdown(self, how):
-    pass
+    if how in (socket.SHUT_WR, socket.SHUT_RDWR):
+      self.shutwr += 1
+      self.dead = True        # a socket whose sending direction is shut down refuses data (EPIPE)
 
   def close(self):
     self.dead = True
@@ -94,13 +97,15 @@ class Adapter(object):
       self.sock.script = []
     elif a == "CloseAgain":
       self.w.close()
+    elif a == "Shutdown":
+      self.w.shutdown()
     else:
       raise ValueError(a)
     self._drain()
     buf = self.w.send_buf
     return {"accepted": list(self.sock.accepted),
             "buf": list(buf) if isinstance(buf, (bytes, bytearray)) else ["NOT-BYTES", repr(buf)[:40]],
-            "closed": bool(self.w.closed), "closes": self.closes}
+            "closed": bool(self.w.closed), "closes": self.closes, "shutwr": self.sock.shutwr}
 
   def signature(self, st, obs):
     sig = {"action": st["a"], "side": "worker"}
